@@ -21,10 +21,10 @@ type c15Entry struct {
 }
 
 type c15Stream struct {
-	Container  string     `json:"container"`
-	NoLabel    bool       `json:"no_container_label,omitempty"`
-	Extra      string     `json:"extra,omitempty"` // second label distinguishing two streams of one container
-	Entries    []c15Entry `json:"entries"`
+	Container string     `json:"container"`
+	NoLabel   bool       `json:"no_container_label,omitempty"`
+	Extra     string     `json:"extra,omitempty"` // second label distinguishing two streams of one container
+	Entries   []c15Entry `json:"entries"`
 }
 
 type c15Input struct {
